@@ -4,9 +4,16 @@ from vlib import *
 import iongen
 import binlib
 
-THEOREMS = []
-LEVEL = "other"
-EXPLANATION = ("K3 with the misuse alphabet: every call sequence up to a bounded length over a reduced alphabet "
+import c12text
+THEOREMS = ["C12_binary_no_panic", "C12_binary_sticky", "C12_binary_error_recorded", "C12_binary_first_failure"] + c12text.THEOREMS
+LEVEL = "proof"
+ASSUMPTIONS = ["Go == model only on the call sequences sampled (exhaustive for short sequences over the reduced alphabet)",
+               "binary no-panic theorem is for NewBinaryWriter without shared tables; the fixed-table writer is covered by correspondence",
+               "'final Finish nil => bytes denote the successful calls' is decided by the oracle (independent decoders) on the real code, not by a theorem"] + c12text.ASSUMPTIONS
+TRUSTED_EXTRA = c12text.TRUSTED_EXTRA
+EXPLANATION = ("Coq theorems for every call sequence: no call panics (binary growing-table Writer and text Writer), a recorded "
+               "error makes every later call fail unchanged, a failing call other than Finish records the error (binary and "
+               "text). K3/K4 with the misuse alphabet: every call sequence up to a bounded length over a reduced alphabet "
                "(exhaustive) plus random long mostly-legal sequences, on the binary Writer with a growing table and "
                "with a fixed table; the model (Bin/BinWriter.v) must predict every per-call result and the bytes. "
                "Oracle on the real code: no panic; an error returned by any call other than Finish is permanent; a "
@@ -112,3 +119,5 @@ def run(ctx):
             if why:
                 ctx.fail("property", comp, ln, why, classify_case(ln))
         check_values(ctx, comp, list(zip(lines, callss, go)))
+    # text and pretty writers: K4 with the same alphabet + forests
+    c12text.run(ctx, ("proto", "forests"))
